@@ -8,6 +8,7 @@ package main
 import (
 	"bufio"
 	"context"
+	"encoding/base64"
 	"encoding/json"
 	"errors"
 	"fmt"
@@ -121,13 +122,22 @@ type fakeCloud struct {
 	gate    chan struct{} // when non-nil GetClientConfig parks until the channel is closed
 	parked  int64
 	nextID  int64
+	known   *models.ClientConfig // the one registered client (challenge-response authentication)
 }
+
+const knownClient = 777
+
+// one master key for every rig: the harness plays the client too and needs the plaintext secret
+var masterKey = base64.StdEncoding.EncodeToString([]byte("0123456789abcdef0123456789abcdef"))
 
 func (f *fakeCloud) GetClientConfig(id int64) (*models.ClientConfig, error) {
 	atomic.AddInt64(&f.calls, 1)
 	if f.gate != nil {
 		atomic.AddInt64(&f.parked, 1)
 		<-f.gate
+	}
+	if id == knownClient && f.known != nil {
+		return f.known, nil
 	}
 	return nil, errors.New("client not found")
 }
@@ -151,6 +161,9 @@ type rig struct {
 	r      *security.RateLimiter
 	cloud  *fakeCloud
 	h      *server.ServerAuthHandler
+	skm    *security.SecretKeyManager
+	secret string            // plaintext SecretKey of knownClient
+	conns  map[int]*fakeConn // connections that stay open across handshake messages (phase 1 -> phase 2)
 }
 
 func newRig(c cfgIn) *rig {
@@ -173,7 +186,13 @@ func newRigOn(c cfgIn, st storage.Storage) *rig {
 	g.r = security.NewRateLimiter(&security.RateLimitConfig{Rate: c.Rate, Burst: c.Burst,
 		TTL: time.Duration(c.TTLMs) * time.Millisecond}, nil, ctx)
 	g.cloud = &fakeCloud{}
-	g.h = server.NewServerAuthHandler(g.cloud, &session.SessionManager{}, g.p, g.m, g.r, nil)
+	skm, err := security.NewSecretKeyManager(&security.SecretKeyConfig{MasterKey: masterKey})
+	must(err)
+	plain, enc, err := skm.GenerateCredentials()
+	must(err)
+	g.skm, g.secret, g.conns = skm, plain, map[int]*fakeConn{}
+	g.cloud.known = &models.ClientConfig{SecretKeyEncrypted: enc}
+	g.h = server.NewServerAuthHandler(g.cloud, &session.SessionManager{}, g.p, g.m, g.r, skm)
 	return g
 }
 
@@ -183,6 +202,8 @@ func classify(resp *packet.HandshakeResponse) int {
 		return 9
 	case resp.Success:
 		return 4
+	case resp.NeedResponse:
+		return 5
 	case resp.Error == "Access denied":
 		return 0
 	case resp.Error == "Access denied: too many failed attempts":
@@ -199,21 +220,40 @@ func classify(resp *packet.HandshakeResponse) int {
 var tokenForms = []string{"new-client", "anonymous:dev-1", "anonymous:", "", "NEW-CLIENT", "anonymous",
 	"new-client ", "Anonymous:x", "anonymous:x:y", "new-client:anonymous:", "anonymous:\u4e2d", "guest"}
 
-// handshake: kind 0 = known-format request with an unknown client id (ClientID != 0, wrong credentials);
-// kind 1 / 2 = ClientID == 0 with token form `form`, credential generation succeeding / failing
+// handshake: arg = kind + 10*x.
+// kind 0 = unknown client id (ClientID != 0, not registered); kind 1 / 2 = ClientID == 0 with token form x, credential
+// generation succeeding / failing; kinds 3, 4, 5 = the registered client on the LONG-LIVED connection x of this case:
+// 3 = phase 1 (no response: a challenge is issued and kept on the connection), 4 / 5 = phase 2 with a wrong / the
+// correct HMAC of whatever challenge is pending on that connection
 func (g *rig) handshake(ip string, arg int) int {
-	kind, form := arg%10, arg/10
+	kind, x := arg%10, arg/10
 	conn := &fakeConn{addr: &net.TCPAddr{IP: net.ParseIP(ip), Port: 40000}}
 	req := &packet.HandshakeRequest{Version: "1", Protocol: "tcp"}
 	switch kind {
 	case 0:
 		req.ClientID = 4242
 	case 1:
-		req.Token = tokenForms[form%len(tokenForms)]
+		req.Token = tokenForms[x%len(tokenForms)]
 		atomic.StoreInt32(&g.cloud.genFail, 0)
-	default:
-		req.Token = tokenForms[form%len(tokenForms)]
+	case 2:
+		req.Token = tokenForms[x%len(tokenForms)]
 		atomic.StoreInt32(&g.cloud.genFail, 1)
+	default:
+		if c, ok := g.conns[x]; ok {
+			conn = c
+		} else {
+			g.conns[x] = conn
+		}
+		req.ClientID = knownClient
+		switch kind {
+		case 4:
+			req.ChallengeResponse = "00ff-not-the-hmac"
+		case 5:
+			req.ChallengeResponse = g.skm.ComputeResponse(g.secret, conn.challenge)
+			if conn.challenge == "" {
+				req.ChallengeResponse = g.skm.ComputeResponse(g.secret, "no-challenge-pending")
+			}
+		}
 	}
 	resp, _ := g.h.HandleHandshake(conn, req)
 	return classify(resp)
